@@ -61,7 +61,7 @@ theorem C12_frame (f : Forest) (inv : f.Inv) (node c : Nat) (live : f.isLive nod
       (f.cloneNode node).1.consolidation = f.consolidation ∧
       (f.cloneNode node).1.everOff = f.everOff ∧ (f.cloneNode node).1.corrupt = f.corrupt := by
   obtain ⟨src, hsrc⟩ := (Forest.isLive_iff f node).mp live
-  obtain ⟨C, f', h1, h2, _, _, _, _, h7, h8, h9⟩ := cloneNode_full f inv node src hsrc
+  obtain ⟨C, f', h1, h2, _, _, _, _, h7, h8, h9, _⟩ := cloneNode_full f inv node src hsrc
   rw [h1] at hc ⊢
   cases hc
   exact ⟨C, h2, rfl, h7, h8, h9⟩
